@@ -30,7 +30,8 @@ ASSUMPTIONS = [
 THETA_HATS = [-1.0, 0.0, 0.5, 1.0, 2.0, 3.0, 5.0, 6.0]
 ALPHAS = [0.01, 0.05, 0.1, 0.5, 0.9]
 METHODS = ["quantile", "bc", "bca"]
-AFFINE = [(2.0, -3.0), (0.5, 10.0), (1.0, 1048576.0)]  # the last: a large exact shift (spread << magnitude)
+# the last two: a large exact shift (spread << magnitude) and a tiny exact scale (absolute tolerances bite)
+AFFINE = [(2.0, -3.0), (0.5, 10.0), (1.0, 1048576.0), (2.0 ** -30, 0.0)]
 NAN = float("nan")
 
 
@@ -65,6 +66,7 @@ def work(tier, seed):
     items = [{"kind": "sets", "part": i, "parts": n} for i in range(n)]
     items += [{"kind": "stacked", "part": i, "parts": 8} for i in range(8)]
     items.append({"kind": "errors"})
+    items.append({"kind": "pole"})
     return items
 
 
@@ -108,6 +110,8 @@ def run(item, ctx, tier, seed):
         except ValueError:
             pass
         return None
+    if item["kind"] == "pole":
+        return _run_pole(ctx)
     ms = multisets(b)
     if item["kind"] == "sets":
         mine = ms[item["part"]::item["parts"]]
@@ -188,6 +192,20 @@ def run(item, ctx, tier, seed):
                             if not np.array_equal(arr, keep, equal_nan=True):
                                 ctx.fail("replicate-array-unchanged", dict(case, call=rep + 1), observed=arr, expected=keep)
                                 break
+                        # alpha passed as the caller's own (0-d / 1-element) float64 array, twice
+                        for aarr in (np.array(alpha), np.array([alpha])):
+                            akeep = aarr.copy()
+                            for rep in range(2):
+                                if aarr.ndim and method != "quantile":
+                                    break
+                                ok, ci = guarded(ctx, "alpha-array", case, lambda: __import__("score_analysis").utils.bootstrap_ci(
+                                    np.array(theta, dtype=float), th, aarr, method=method))
+                                ctx.tick()
+                                if ok and not np.allclose(np.asarray(ci, dtype=float).reshape(-1), base, rtol=0, atol=tol, equal_nan=True):
+                                    ctx.fail("alpha-array-same-limits", dict(case, call=rep + 1, alpha_ndim=aarr.ndim), observed=ci, expected=list(base))
+                                if not np.array_equal(aarr, akeep):
+                                    ctx.fail("alpha-array-unchanged", dict(case, call=rep + 1), observed=aarr, expected=akeep)
+                                    break
                         # integer-valued replicates stored in an integer array
                         if all(not math.isnan(t) and float(t).is_integer() for t in theta):
                             ok, ci = guarded(ctx, "int-dtype", case, lambda: __import__("score_analysis").utils.bootstrap_ci(
@@ -248,4 +266,34 @@ def run(item, ctx, tier, seed):
                                 ctx.fail("components-independent", dict(case, component=k, alpha=alphas[j]),
                                          observed=flat[k, j], expected=single)
     ctx.sample({"kind": "stacked", "metric_shapes": b["metric_shapes"], "alpha_shapes": b["alpha_shapes"]})
+    return None
+
+
+def _run_pole(ctx):
+    """BCa beyond the pole of the acceleration term: the documented formula is claimed everywhere."""
+    cases = []
+    for n_bulk, outlier in ((19, 1000.0), (49, 1000.0), (9, 50.0), (199, 1e6)):
+        theta = [0.0] * (n_bulk // 2) + [1.0] * (n_bulk - n_bulk // 2) + [outlier]
+        for th in (0.5, outlier / 2, 1.0):
+            for alpha in (1e-6, 1e-3, 0.01, 0.2):
+                cases.append((theta, th, alpha))
+    beyond = 0
+    for theta, th, alpha in cases:
+        case = {"theta": f"{len(theta) - 1} bulk values in {{0,1}} + outlier {theta[-1]}", "theta_hat": th, "alpha": alpha, "method": "bca"}
+        ctx.state()
+        ok, ci = guarded(ctx, "call", case, _call, theta, th, alpha, "bca")
+        ctx.tick()
+        if not ok:
+            continue
+        want = refs.ref_bootstrap_ci(theta, th, alpha, "bca")
+        if not _pole_ok(theta, th, alpha):
+            beyond += 1
+            ctx.nontrivial()
+        if want is None:
+            continue
+        rng_ = max(theta) - min(theta)
+        if not np.allclose(np.asarray(ci, dtype=float), want, rtol=0, atol=1e-9 * rng_, equal_nan=True):
+            ctx.fail("limits-equal-documented-formula", case, observed=ci, expected=list(want))
+    ctx.extra["cov_bca_cases_beyond_the_pole"] = beyond
+    ctx.sample({"kind": "pole", "cases": len(cases), "beyond_pole": beyond})
     return None
